@@ -52,6 +52,10 @@ type hist struct {
 	Clients []clientOpt      `json:"clients"`
 	Ops     []op             `json:"ops"`
 	Workers int              `json:"workers,omitempty"` // >0: concurrent round
+	// Twins[p] >= 0: the LAST candidate of prefix p is a twin of candidate Twins[p]: same attributes in every respect the
+	// decision process and path equality look at, another id (community). A twin only enters the table by replacing its
+	// sibling (what an import policy replacement that changes a non-selection attribute produces).
+	Twins []int `json:"twins,omitempty"`
 }
 
 var pfxs = func() []*bnet.Prefix {
@@ -91,6 +95,41 @@ var allOpts = []clientOpt{{Best: true}, {ECMP: true}, {Max: 1}, {Max: 2}, {Max: 
 // constraint holds under every interleaving.
 func genHist(rng *rand.Rand, nops int, workers int) hist {
 	h := hist{Cands: genCands(rng), Workers: workers}
+	if workers == 0 {
+		h.Twins = make([]int, len(h.Cands))
+		maxID := uint32(0)
+		for _, cs := range h.Cands {
+			for _, c := range cs {
+				if c.ID > maxID {
+					maxID = c.ID
+				}
+			}
+		}
+		for p := range h.Cands {
+			h.Twins[p] = -1
+			j := rng.IntN(len(h.Cands[p]))
+			if rng.IntN(3) != 0 && !h.Cands[p][j].Static {
+				t := h.Cands[p][j]
+				maxID++
+				t.ID = maxID
+				h.Cands[p] = append(h.Cands[p], t)
+				h.Twins[p] = j
+			}
+		}
+	}
+	isTwin := func(p, j int) bool { return h.Twins != nil && h.Twins[p] >= 0 && j == len(h.Cands[p])-1 }
+	sibling := func(p, j int) int {
+		if h.Twins == nil || h.Twins[p] < 0 {
+			return -1
+		}
+		if j == len(h.Cands[p])-1 {
+			return h.Twins[p]
+		}
+		if j == h.Twins[p] {
+			return len(h.Cands[p]) - 1
+		}
+		return -1
+	}
 	nc := 3 + rng.IntN(4)
 	for i := 0; i < nc; i++ {
 		h.Clients = append(h.Clients, allOpts[rng.IntN(len(allOpts))])
@@ -104,6 +143,12 @@ func genHist(rng *rand.Rand, nops int, workers int) hist {
 		var c []int
 		for j := range h.Cands[p] {
 			if j%owners == owner && stored[[2]int{p, j}] == want {
+				if !want {
+					// a twin (or the sibling of a stored twin) only enters by replacing its sibling
+					if sb := sibling(p, j); isTwin(p, j) || (sb >= 0 && stored[[2]int{p, sb}]) {
+						continue
+					}
+				}
 				c = append(c, j)
 			}
 		}
@@ -132,6 +177,11 @@ func genHist(rng *rand.Rand, nops int, workers int) hist {
 			}
 		case x < 72:
 			o, n := pick(p, owner, true), pick(p, owner, false)
+			if o >= 0 {
+				if sb := sibling(p, o); sb >= 0 && rng.IntN(2) == 0 {
+					n = sb // replaced by its twin: nothing the decision process looks at changes
+				}
+			}
 			if o >= 0 && n >= 0 {
 				h.Ops = append(h.Ops, op{K: "replace", Pfx: p, Old: o, Path: n})
 				stored[[2]int{p, o}] = false
